@@ -284,3 +284,44 @@ func (p *Path) quickBool(c *Term) (bool, bool) {
 	}
 	return false, false
 }
+
+// scaledBy recognises x = y*k + c with 0 <= c < k where, by the unsigned intervals known on this path,
+// y*k + c neither wraps nor (for signed division) reaches the sign bit.
+func (p *Path) scaledBy(x *Term, k uint64, signed bool) (*Term, uint64, bool) {
+	if k == 0 || (signed && int64(k) < 0) {
+		return nil, 0, false
+	}
+	var c uint64
+	prod := x
+	if x.Op == OpBVAdd {
+		switch {
+		case x.Args[1].IsConst():
+			prod, c = x.Args[0], x.Args[1].C
+		case x.Args[0].IsConst():
+			prod, c = x.Args[1], x.Args[0].C
+		default:
+			return nil, 0, false
+		}
+	}
+	if c >= k || prod.Op != OpBVMul {
+		return nil, 0, false
+	}
+	var y *Term
+	switch {
+	case prod.Args[1].IsConst() && prod.Args[1].C == k:
+		y = prod.Args[0]
+	case prod.Args[0].IsConst() && prod.Args[0].C == k:
+		y = prod.Args[1]
+	default:
+		return nil, 0, false
+	}
+	iv := p.interval(y)
+	limit := mask(64)
+	if signed {
+		limit = 1<<63 - 1
+	}
+	if !iv.ok || iv.hi > (limit-c)/k {
+		return nil, 0, false
+	}
+	return y, c, true
+}
